@@ -44,6 +44,8 @@ def strategy(tier):
         "from_function": st.sampled_from([True, False, False]),
         # script mode (cmake -P) or a project configured from a working directory that is not its source directory
         "via": st.sampled_from(["script", "project", "script"]),
+        # characters CMake's path helpers treat specially (list separators of search paths, Windows separators)
+        "odd_paths": st.sampled_from([False, True, False]),
     })
 
 
@@ -73,7 +75,11 @@ def evaluate(case):
     with S.Sandbox("c19") as sb:
         work = sb.path("work")
         os.makedirs(work)
-        inp = os.path.join(work, "in put")
+        odd = bool(case.get("odd_paths"))
+        n_in, n_cm, n_cli = ("in:put", "out:cm\\a", "out:cli\\a") if odd else ("in put", "out cm", "out cli")
+        if odd:
+            res.labels.append("paths-with-colon-and-backslash")
+        inp = os.path.join(work, n_in)
         kind = case["input"]
         if kind == "flat-dir":
             tree = {"files": tree["files"], "dirs": {}}
@@ -98,8 +104,8 @@ def evaluate(case):
             with open(os.path.join(inp, "zz_bad.cmake"), "w") as f:
                 f.write("function(a b\n")
         in_arg = os.path.relpath(in_abs, work) if case["relative"] else in_abs
-        out_cm = "out cm" if case["out_relative"] else os.path.join(work, "out cm")
-        out_cli = "out cli" if case["out_relative"] else os.path.join(work, "out cli")
+        out_cm = n_cm if case["out_relative"] else os.path.join(work, n_cm)
+        out_cli = n_cli if case["out_relative"] else os.path.join(work, n_cli)
         extras = []
         for flag, val in case["extras"]:
             if flag == "-s":
@@ -196,8 +202,8 @@ def evaluate(case):
         if os.path.exists(marker) != (not direct_failed):
             res.fail("configure-continues-after-failure" if direct_failed else "marker-missing-after-success",
                      f"marker exists={os.path.exists(marker)}, direct run failed={direct_failed}")
-        t_cm = S.read_tree(os.path.join(work, "out cm")) if os.path.isdir(os.path.join(work, "out cm")) else {}
-        t_cli = S.read_tree(os.path.join(work, "out cli")) if os.path.isdir(os.path.join(work, "out cli")) else {}
+        t_cm = S.read_tree(os.path.join(work, n_cm)) if os.path.isdir(os.path.join(work, n_cm)) else {}
+        t_cli = S.read_tree(os.path.join(work, n_cli)) if os.path.isdir(os.path.join(work, n_cli)) else {}
         if t_cm != t_cli:
             only = sorted(set(t_cm) ^ set(t_cli))
             diff = [k for k in t_cm if k in t_cli and t_cm[k] != t_cli[k]]
